@@ -43,6 +43,11 @@ class P:
     def big(self, k=2):
         return self.a > k
 
+    @property
+    def k1000(self):
+        """a number outside the small-int cache, computed on every access: equal values are different objects"""
+        return self.a * 1000 + 7
+
     def inc(self):
         return self.a + 1
 
@@ -101,6 +106,11 @@ class PE:
     def big(self, k=2):
         return self.a > k
 
+    @property
+    def k1000(self):
+        """a number outside the small-int cache, computed on every access: equal values are different objects"""
+        return self.a * 1000 + 7
+
     def inc(self):
         return self.a + 1
 
@@ -142,6 +152,11 @@ class Q:
 
     def big(self, k=2):
         return self.a > k
+
+    @property
+    def k1000(self):
+        """a number outside the small-int cache, computed on every access: equal values are different objects"""
+        return self.a * 1000 + 7
 
     def inc(self):
         return self.a + 1
